@@ -2,7 +2,7 @@
 From Coq Require Import List NArith ZArith Bool.
 From Coq Require Import QArith.
 From NV Require Import Prelude.Str Prelude.Res Prelude.Sx Model.Url Model.Redirect Model.Bucket Model.Ip Model.Titan Model.ServerProto.
-From NV Require Spec.C19 Spec.C16 Spec.C10 Spec.C09.
+From NV Require Spec.C19 Spec.C16 Spec.C10 Spec.C09 Spec.ServerTrace Spec.C01 Spec.C04 Spec.C07 Spec.C15.
 Import ListNotations.
 Open Scope N_scope.
 
@@ -143,6 +143,22 @@ Definition server_run (cfg evs : sx) : list (list action * bool) :=
     (as_bool (nth_sx 0 cfg)) (as_bool (nth_sx 1 cfg)) (as_str (nth_sx 2 cfg)) (read_ostr (nth_sx 3 cfg))
     init (map read_sevent (as_list evs)).
 
+Definition read_action (x : sx) : action :=
+  let tag := as_str (nth_sx 0 x) in
+  if eqb tag (lit "w") then AWrite (as_str (nth_sx 1 x))
+  else if eqb tag (lit "c") then AClose
+  else if eqb tag (lit "mw") then AMw (N.to_nat (as_N (nth_sx 1 x))) (as_str (nth_sx 2 x)) (as_str (nth_sx 3 x)) (read_ostr (nth_sx 4 x))
+  else if eqb tag (lit "h") then AHandler (as_str (nth_sx 1 x))
+  else if eqb tag (lit "ht") then AHandlerTask (N.to_nat (as_N (nth_sx 1 x)))
+  else if eqb tag (lit "up") then AUpload (N.to_nat (as_N (nth_sx 1 x))) (as_str (nth_sx 2 x)) (as_str (nth_sx 3 x))
+  else AOutOfModel.   (* unknown tags (e.g. "escape") never compare equal to a model action *)
+Definition read_obs (x : sx) : ServerTrace.obs :=
+  map (fun e => (map read_action (as_list (nth_sx 0 e)), as_bool (nth_sx 1 e))) (as_list x).
+Definition read_cfg (x : sx) : ServerTrace.cfg :=
+  {| ServerTrace.c_mw := as_bool (nth_sx 0 x); ServerTrace.c_upload := as_bool (nth_sx 1 x);
+     ServerTrace.c_ip := as_str (nth_sx 2 x); ServerTrace.c_fp := read_ostr (nth_sx 3 x);
+     ServerTrace.c_hres := read_hres (nth_sx 4 x) |}.
+
 Definition dispatch (name : str) (arg : sx) : sx :=
   if eqb name (lit "parse_url") then
     show_res show_parsed (parse_url (ip6_of_table (nth_sx 1 arg)) (as_str (nth_sx 0 arg)))
@@ -184,5 +200,15 @@ Definition dispatch (name : str) (arg : sx) : sx :=
     if existsb (fun x => existsb (fun a => match a with AOutOfModel => true | _ => false end) (fst x)) r
     then L [sT "oom"]
     else L (map (fun r => L [L (map show_action (fst r)); sB (snd r)]) r)
+  else if eqb name (lit "C01.ok") then
+    sB (Spec.C01.ok (ip6_of_table (nth_sx 5 (nth_sx 0 arg))) (read_cfg (nth_sx 0 arg))
+                    (map read_sevent (as_list (nth_sx 1 arg))) (read_obs (nth_sx 2 arg)))
+  else if eqb name (lit "C04.ok") then
+    sB (Spec.C04.ok (ip6_of_table (nth_sx 5 (nth_sx 0 arg))) (read_cfg (nth_sx 0 arg))
+                    (map read_sevent (as_list (nth_sx 1 arg))) (read_obs (nth_sx 2 arg)))
+  else if eqb name (lit "C07.ok") then sB (Spec.C07.ok (read_obs (nth_sx 2 arg)))
+  else if eqb name (lit "C07.same") then sB (Spec.C07.same (read_obs (nth_sx 0 arg)) (read_obs (nth_sx 1 arg)))
+  else if eqb name (lit "C15.ok") then
+    sB (Spec.C15.ok (map read_sevent (as_list (nth_sx 1 arg))) (read_obs (nth_sx 2 arg)))
   else L [sT "unknown-model"; A name].
 Close Scope N_scope.
